@@ -48,3 +48,835 @@ Proof.
 Qed.
 
 End Generic.
+
+(* ------------------------------------------------------------------ *)
+(* list helpers *)
+Lemma nth_set_nth_eq {A} (l : list A) k v d : (k < length l)%nat -> nth k (set_nth l k v) d = v.
+Proof. revert k; induction l as [|x r IH]; intros [|k] H; cbn in *; try lia; auto. apply IH. lia. Qed.
+
+Lemma nth_set_nth_neq {A} (l : list A) k j v d : k <> j -> nth j (set_nth l k v) d = nth j l d.
+Proof.
+  revert k j; induction l as [|x r IH]; intros [|k] [|j] H; cbn; auto; try lia.
+Qed.
+
+Lemma in_pairs N i j : In (i, j) (pairs N) <-> (i < j < N)%nat.
+Proof.
+  unfold pairs. rewrite in_flat_map. split.
+  - intros [a [Ha H]]. apply in_map_iff in H. destruct H as [b [E Hb]]. injection E as -> ->.
+    apply in_seq in Ha. apply in_seq in Hb. lia.
+  - intros H. exists i. split; [apply in_seq; lia|]. apply in_map_iff. exists j. split; [reflexivity|apply in_seq; lia].
+Qed.
+
+Section Phase1.
+Context {T : Type} (Op : numops T).
+Hypothesis ltb_asym : forall x y, n_ltb Op x y = true -> n_ltb Op y x = false.
+Variable w : list (list T).
+Let N := length w.
+Let dom i j := dominates Op (nth i w []) (nth j w []).
+
+(* in the pair (a,b): x loses to j / x wins *)
+Definition loses (x j : nat) (p : nat * nat) : Prop :=
+  (x = snd p /\ j = fst p /\ dom (fst p) (snd p) = true) \/
+  (x = fst p /\ j = snd p /\ dom (fst p) (snd p) = false /\ dom (snd p) (fst p) = true).
+Definition wins (x : nat) (p : nat * nat) : Prop :=
+  (x = fst p /\ dom (fst p) (snd p) = true) \/
+  (x = snd p /\ dom (fst p) (snd p) = false /\ dom (snd p) (fst p) = true).
+
+Lemma loses_pair x j a b : loses x j (a, b) <->
+  ((x = b /\ j = a /\ dom a b = true) \/ (x = a /\ j = b /\ dom a b = false /\ dom b a = true)).
+Proof. reflexivity. Qed.
+Lemma wins_pair x a b : wins x (a, b) <->
+  ((x = a /\ dom a b = true) \/ (x = b /\ dom a b = false /\ dom b a = true)).
+Proof. reflexivity. Qed.
+
+Record p1inv (P : list (nat * nat)) (st : list nat * list (list nat)) : Prop := {
+  p1_ls : length (fst st) = N;
+  p1_ld : length (snd st) = N;
+  p1_d : forall x j, In j (nth x (snd st) []) <-> exists p, In p P /\ loses x j p;
+  p1_s : forall x, (exists p, In p P /\ wins x p) -> (1 <= nth x (fst st) 0)%nat
+}.
+
+Lemma p1_step P st p : p1inv P st -> (fst p < N)%nat -> (snd p < N)%nat -> p1inv (P ++ [p]) (pair_step Op w st p).
+Proof.
+  intros [LS LD HD HS] Ha Hb. destruct p as [a b]. destruct st as [S_ D]. cbn [fst snd] in *.
+  unfold pair_step. fold (dom a b). fold (dom b a).
+  assert (Hex : forall (Q : nat * nat -> Prop), (exists p, In p (P ++ [(a, b)]) /\ Q p) <-> ((exists p, In p P /\ Q p) \/ Q (a, b))).
+  { intros Q. split.
+    - intros [p [Hp HQ]]. apply in_app_or in Hp. destruct Hp as [Hp|[<-|[]]]; [left; eauto|now right].
+    - intros [[p [Hp HQ]]|HQ]; [exists p; split; [apply in_or_app; now left|exact HQ]|].
+      exists (a, b). split; [apply in_or_app; right; now left|exact HQ]. }
+  destruct (dom a b) eqn:Eab; [|destruct (dom b a) eqn:Eba].
+  - (* a dominates b *)
+    constructor; cbn [fst snd].
+    + unfold incr. now rewrite set_nth_length.
+    + unfold push. now rewrite set_nth_length.
+    + intros x j. rewrite Hex. unfold push. destruct (Nat.eq_dec b x) as [<-|Hne].
+      * rewrite nth_set_nth_eq by lia. rewrite in_app_iff, HD. rewrite loses_pair, Eab.
+        split; [intros [H|[<-|[]]]; [now left|right; left; auto]|].
+        intros [H|[[_ [-> _]]|[_ [_ [H _]]]]]; [now left|right; now left|discriminate].
+      * rewrite nth_set_nth_neq by exact Hne. rewrite HD. rewrite loses_pair, Eab.
+        split; [intros H; now left|]. intros [H|[[-> _]|[_ [_ [H _]]]]]; [exact H|contradiction|discriminate].
+    + intros x. rewrite Hex. unfold incr. intros [H|H].
+      * specialize (HS x H). destruct (Nat.eq_dec a x) as [<-|Hne].
+        -- rewrite nth_set_nth_eq by lia. lia.
+        -- rewrite nth_set_nth_neq by exact Hne. exact HS.
+      * rewrite wins_pair, Eab in H. destruct H as [[-> _]|[_ [H _]]]; [|discriminate].
+        rewrite nth_set_nth_eq by lia. lia.
+  - (* b dominates a *)
+    constructor; cbn [fst snd].
+    + unfold incr. now rewrite set_nth_length.
+    + unfold push. now rewrite set_nth_length.
+    + intros x j. rewrite Hex. unfold push. destruct (Nat.eq_dec a x) as [<-|Hne].
+      * rewrite nth_set_nth_eq by lia. rewrite in_app_iff, HD. rewrite loses_pair, Eab, Eba.
+        split; [intros [H|[<-|[]]]; [now left|right; right; auto]|].
+        intros [H|[[_ [_ H]]|[_ [-> _]]]]; [now left|discriminate|right; now left].
+      * rewrite nth_set_nth_neq by exact Hne. rewrite HD. rewrite loses_pair, Eab.
+        split; [intros H; now left|]. intros [H|[[_ [_ H]]|[-> _]]]; [exact H|discriminate|contradiction].
+    + intros x. rewrite Hex. unfold incr. intros [H|H].
+      * specialize (HS x H). destruct (Nat.eq_dec b x) as [<-|Hne].
+        -- rewrite nth_set_nth_eq by lia. lia.
+        -- rewrite nth_set_nth_neq by exact Hne. exact HS.
+      * rewrite wins_pair, Eab in H. destruct H as [[_ H]|[-> _]]; [discriminate|].
+        rewrite nth_set_nth_eq by lia. lia.
+  - (* neither *)
+    constructor; cbn [fst snd]; auto.
+    + intros x j. rewrite Hex, HD. rewrite loses_pair, Eab, Eba.
+      split; [intros H; now left|]. intros [H|[[_ [_ H]]|[_ [_ [_ H]]]]]; [exact H|discriminate|discriminate].
+    + intros x. rewrite Hex. intros [H|H]; [auto|]. rewrite wins_pair, Eab, Eba in H.
+      destruct H as [[_ H]|[_ [_ H]]]; discriminate.
+Qed.
+
+Lemma p1_fold : forall l P st, p1inv P st -> (forall p, In p l -> (fst p < N)%nat /\ (snd p < N)%nat) ->
+  p1inv (P ++ l) (fold_left (pair_step Op w) l st).
+Proof.
+  induction l as [|p l IH]; intros P st I Hl; cbn [fold_left].
+  - now rewrite app_nil_r.
+  - replace (P ++ p :: l) with ((P ++ [p]) ++ l) by (rewrite <- app_assoc; reflexivity).
+    apply IH.
+    + apply p1_step; [exact I|apply Hl; now left|apply Hl; now left].
+    + intros q Hq. apply Hl. now right.
+Qed.
+
+Lemma p1_init : p1inv [] (repeat 0%nat N, repeat [] N).
+Proof.
+  constructor; cbn [fst snd].
+  - apply repeat_length.
+  - apply repeat_length.
+  - intros x j. split.
+    + intro H. exfalso. destruct (Nat.lt_ge_cases x N) as [L|L].
+      * rewrite nth_repeat in H. destruct H.
+      * rewrite nth_overflow in H by (rewrite repeat_length; exact L). destruct H.
+    + intros [p [[] _]].
+  - intros x [p [[] _]].
+Qed.
+
+Lemma phase1_inv : p1inv (pairs N) (phase1 Op w N).
+Proof.
+  unfold phase1. change (pairs N) with ([] ++ pairs N). apply p1_fold; [apply p1_init|].
+  intros [a b] H. apply in_pairs in H. cbn. lia.
+Qed.
+
+(* raw fitness 0  <->  no dominator *)
+Lemma fold_sum_zero (S_ : list nat) : forall dl acc,
+  fold_left (fun acc j => (acc + nth j S_ 0)%nat) dl acc = 0%nat <-> (acc = 0%nat /\ forall j, In j dl -> nth j S_ 0%nat = 0%nat).
+Proof.
+  induction dl as [|j dl IH]; intros acc; cbn [fold_left].
+  - split; [intro H; split; [exact H|intros j []]|tauto].
+  - rewrite IH. split.
+    + intros [H1 H2]. split; [lia|]. intros j' [<-|Hj]; [lia|auto].
+    + intros [H1 H2]. split; [rewrite H1, (H2 j (or_introl eq_refl)); reflexivity|]. intros j' Hj. apply H2. now right.
+Qed.
+
+Definition nondominated (i : nat) : Prop := forall j, (j < N)%nat -> dom j i = false.
+
+Lemma raw_fits_zero_iff i : (i < N)%nat ->
+  let '(S_, D) := phase1 Op w N in
+  nth i (raw_fits S_ D) 1%nat = 0%nat <-> nondominated i.
+Proof.
+  intro Hi. assert (I := phase1_inv). destruct (phase1 Op w N) as [S_ D].
+  destruct I as [LS LD HD HS]. cbn [fst snd] in *.
+  unfold raw_fits.
+  rewrite (nth_indep _ 1%nat (fold_left (fun acc j => (acc + nth j S_ 0)%nat) [] 0%nat)) by (rewrite map_length; lia).
+  rewrite (map_nth (fun dl => fold_left (fun acc j => (acc + nth j S_ 0)%nat) dl 0%nat) D [] i).
+  rewrite fold_sum_zero. split.
+  - intros [_ H] j Hj. destruct (dom j i) eqn:E; [|reflexivity]. exfalso.
+    assert (Hne : j <> i). { intros ->. unfold dom in E. rewrite (dominates_irrefl Op ltb_asym) in E. discriminate. }
+    assert (Hasym : dom i j = false) by (apply (dominates_asym Op ltb_asym); exact E).
+    (* the pair containing i and j was processed and i lost it *)
+    assert (Hl : exists p, In p (pairs N) /\ loses i j p).
+    { destruct (Nat.lt_ge_cases j i) as [L|L].
+      - exists (j, i). split; [apply in_pairs; lia|]. left. cbn. auto.
+      - exists (i, j). split; [apply in_pairs; lia|]. right. cbn. auto. }
+    assert (Hin : In j (nth i D [])) by (apply HD; exact Hl).
+    assert (Hw : exists p, In p (pairs N) /\ wins j p).
+    { destruct Hl as [p [Hp Hl]]. exists p. split; [exact Hp|]. destruct Hl as [[-> [-> H1]]|[-> [-> [H1 H2]]]]; [left|right]; auto. }
+    specialize (HS j Hw). specialize (H j Hin). lia.
+  - intros Hnd. split; [reflexivity|]. intros j Hj. exfalso. apply HD in Hj. destruct Hj as [[a b] [Hp Hl]].
+    apply in_pairs in Hp. destruct Hl as [[-> [-> H1]]|[-> [-> [_ H2]]]]; cbn [fst snd] in *.
+    + rewrite (Hnd a) in H1 by lia. discriminate.
+    + rewrite (Hnd b) in H2 by lia. discriminate.
+Qed.
+
+Lemma raw_fits_length : let '(S_, D) := phase1 Op w N in length (raw_fits S_ D) = N.
+Proof.
+  assert (I := phase1_inv). destruct (phase1 Op w N) as [S_ D]. destruct I as [_ LD _ _]. cbn in LD.
+  unfold raw_fits. now rewrite map_length.
+Qed.
+
+(* chosen_indices = exactly the non-dominated individuals, in index order *)
+Lemma nd_indices_spec i :
+  let '(S_, D) := phase1 Op w N in
+  In i (nd_indices (raw_fits S_ D)) <-> ((i < N)%nat /\ nondominated i).
+Proof.
+  assert (L := raw_fits_length). assert (Z := fun i => raw_fits_zero_iff i).
+  destruct (phase1 Op w N) as [S_ D]. unfold nd_indices. rewrite filter_In, in_seq, L. split.
+  - intros [Hi H]. split; [lia|]. apply (Z i ltac:(lia)). apply Nat.ltb_lt in H.
+    rewrite (nth_indep _ 1%nat 0%nat) by lia. lia.
+  - intros [Hi H]. split; [lia|]. apply Nat.ltb_lt. apply (Z i Hi) in H.
+    rewrite (nth_indep _ 1%nat 0%nat) in H by lia. lia.
+Qed.
+
+Lemma nd_indices_NoDup fits : NoDup (nd_indices fits).
+Proof. unfold nd_indices. apply NoDup_filter, seq_NoDup. Qed.
+
+End Phase1.
+
+(* ------------------------------------------------------------------ *)
+(* the "archive too small" branch *)
+From Coq Require Import Permutation.
+
+Lemma memb_In i l : memb i l = true <-> In i l.
+Proof.
+  unfold memb. rewrite existsb_exists. split.
+  - intros [x [Hx E]]. apply Nat.eqb_eq in E. now subst.
+  - intro H. exists i. split; [exact H|apply Nat.eqb_refl].
+Qed.
+
+Lemma filter_length_split {A} (f : A -> bool) l :
+  (length (filter f l) + length (filter (fun x => negb (f x)) l) = length l)%nat.
+Proof. induction l as [|x l IH]; cbn; auto. destruct (f x); cbn; lia. Qed.
+
+Lemma count_not_chosen N chosen : NoDup chosen -> (forall i, In i chosen -> (i < N)%nat) ->
+  length (filter (fun i => negb (memb i chosen)) (seq 0 N)) = (N - length chosen)%nat.
+Proof.
+  intros ND Hlt.
+  assert (H := filter_length_split (fun i => memb i chosen) (seq 0 N)). rewrite seq_length in H.
+  assert (P : Permutation (filter (fun i => memb i chosen) (seq 0 N)) chosen).
+  { apply NoDup_Permutation; [apply NoDup_filter, seq_NoDup|exact ND|].
+    intro x. rewrite filter_In, in_seq, memb_In. split; [tauto|]. intro Hx. split; [specialize (Hlt x Hx); lia|exact Hx]. }
+  apply Permutation_length in P. lia.
+Qed.
+
+Lemma map_snd_filter_zip {A} (P : nat -> bool) : forall (keys : list A) idx, length keys = length idx ->
+  map snd (filter (fun p => P (snd p)) (zip keys idx)) = filter P idx.
+Proof.
+  induction keys as [|x keys IH]; intros [|i idx] H; cbn in *; try lia; auto.
+  destruct (P i); cbn; rewrite IH by lia; reflexivity.
+Qed.
+
+Section Fill.
+Context {T : Type} (Op : numops T).
+
+Lemma fill_keys_length vals N fits : forall is_ draws,
+  length (fst (fill_keys Op vals N is_ fits draws)) = length is_.
+Proof.
+  induction is_ as [|i r IH]; intros draws; cbn [fill_keys]; [reflexivity|].
+  destruct (rand_select Op (S N) (dist_row Op vals N i) 0 (Z.of_nat N - 1) (rank_of N) draws) as [kth d1].
+  specialize (IH d1). destruct (fill_keys Op vals N r fits d1) as [ks d2]. cbn in *. now rewrite IH.
+Qed.
+
+Lemma ins_sorted_perm x : forall l, Permutation (ins_sorted Op x l) (x :: l).
+Proof.
+  induction l as [|y l IH]; cbn; auto. destruct (pair_lt Op x y); auto.
+  rewrite IH. apply perm_swap.
+Qed.
+
+Lemma sort_pairs_perm l : Permutation (sort_pairs Op l) l.
+Proof.
+  induction l as [|x l IH]; cbn; auto. rewrite ins_sorted_perm. now constructor.
+Qed.
+
+Theorem fill_branch_spec vals N k fits chosen draws :
+  NoDup chosen -> (forall i, In i chosen -> (i < N)%nat) -> (length chosen <= k <= N)%nat ->
+  let r := fst (fill_branch Op vals N k fits chosen draws) in
+  length r = k /\ NoDup r /\ (forall i, In i r -> (i < N)%nat) /\ incl chosen r.
+Proof.
+  intros ND Hlt Hk. unfold fill_branch.
+  assert (LK := fill_keys_length vals N fits (seq 0 N) draws).
+  destruct (fill_keys Op vals N (seq 0 N) fits draws) as [keys d]. cbn [fst] in *. rewrite seq_length in LK.
+  set (flt := filter _ (zip keys (seq 0 N))). set (next := sort_pairs Op flt).
+  set (q := (k - length chosen)%nat).
+  assert (E1 : map snd flt = filter (fun i => negb (memb i chosen)) (seq 0 N)).
+  { unfold flt. apply (map_snd_filter_zip (fun i => negb (memb i chosen))). now rewrite seq_length. }
+  assert (P : Permutation (map snd next) (filter (fun i => negb (memb i chosen)) (seq 0 N))).
+  { rewrite <- E1. apply Permutation_map. apply sort_pairs_perm. }
+  assert (NDn : NoDup (map snd next)).
+  { eapply Permutation_NoDup; [symmetry; exact P|]. apply NoDup_filter, seq_NoDup. }
+  assert (Ln : length (map snd next) = (N - length chosen)%nat).
+  { rewrite (Permutation_length P). apply count_not_chosen; assumption. }
+  rewrite <- firstn_map.
+  assert (Hin : forall i, In i (firstn q (map snd next)) -> (i < N)%nat /\ ~ In i chosen).
+  { intros i Hi. apply firstn_In in Hi. apply (Permutation_in _ P) in Hi.
+    apply filter_In in Hi. destruct Hi as [H1 H2]. apply in_seq in H1. split; [lia|].
+    apply negb_true_iff in H2. intro Hc. apply memb_In in Hc. congruence. }
+  split; [|split; [|split]].
+  - rewrite app_length, firstn_length, Ln. unfold q. lia.
+  - apply NoDup_app_disj; [exact ND|apply firstn_NoDup; exact NDn|].
+    intros x Hx Hx'. apply Hin in Hx'. tauto.
+  - intros i Hi. apply in_app_or in Hi. destruct Hi as [Hi|Hi]; [auto|apply Hin in Hi; tauto].
+  - intros x Hx. apply in_or_app. now left.
+Qed.
+
+End Fill.
+
+(* ------------------------------------------------------------------ *)
+(* the "archive too large" branch: the truncation loop removes distinct live rows *)
+Section Bubble.
+Variables (mp size : nat).
+
+Lemma bubble_In x : forall r a j, In x (bubble mp size a r j) <-> In x (a :: r).
+Proof.
+  induction r as [|b r IH]; intros a j; cbn [bubble]; [tauto|].
+  destruct (Nat.leb 1 j && Nat.ltb j (size - 1) && Nat.eqb a mp); cbn [In]; rewrite IH; cbn [In]; tauto.
+Qed.
+
+Lemma bubble_length : forall r a j, length (bubble mp size a r j) = S (length r).
+Proof.
+  induction r as [|b r IH]; intros a j; cbn [bubble]; [reflexivity|].
+  destruct (Nat.leb 1 j && Nat.ltb j (size - 1) && Nat.eqb a mp); cbn [length]; now rewrite IH.
+Qed.
+
+(* elements different from mp are left in place *)
+Lemma bubble_skip : forall pre a x rest j, a <> mp -> ~ In mp pre ->
+  bubble mp size a (pre ++ x :: rest) j = (a :: pre) ++ bubble mp size x rest (j + S (length pre)).
+Proof.
+  induction pre as [|b pre IH]; intros a x rest j Ha Hpre; cbn [app bubble length].
+  - assert (E : Nat.eqb a mp = false) by (apply Nat.eqb_neq; exact Ha). rewrite E, andb_false_r.
+    replace (j + 1)%nat with (S j) by lia. reflexivity.
+  - assert (E : Nat.eqb a mp = false) by (apply Nat.eqb_neq; exact Ha). rewrite E, andb_false_r.
+    rewrite IH; [|intro; apply Hpre; now left|intro; apply Hpre; now right].
+    replace (S j + S (length pre))%nat with (j + S (S (length pre)))%nat by lia. reflexivity.
+Qed.
+
+(* mp is carried to the right while 1 <= j < size-1 *)
+Lemma bubble_carry : forall post rest j, (1 <= j)%nat -> (j + length post <= size - 1)%nat ->
+  bubble mp size mp (post ++ rest) j = post ++ bubble mp size mp rest (j + length post).
+Proof.
+  induction post as [|b post IH]; intros rest j Hj Hle; cbn [app length].
+  - now rewrite Nat.add_0_r.
+  - cbn [bubble]. cbn [length] in Hle.
+    assert (E : Nat.leb 1 j && Nat.ltb j (size - 1) && Nat.eqb mp mp = true).
+    { rewrite Nat.eqb_refl, andb_true_r. apply andb_true_iff. split; [apply Nat.leb_le|apply Nat.ltb_lt]; lia. }
+    rewrite E. rewrite IH by lia. replace (S j + length post)%nat with (j + S (length post))%nat by lia. reflexivity.
+Qed.
+
+(* from position size-1 on nothing moves *)
+Lemma bubble_stop : forall r a j, (size - 1 <= j)%nat -> bubble mp size a r j = a :: r.
+Proof.
+  induction r as [|b r IH]; intros a j Hj; cbn [bubble]; [reflexivity|].
+  assert (E : Nat.ltb j (size - 1) = false) by (apply Nat.ltb_ge; exact Hj).
+  rewrite E, andb_false_r. cbn. rewrite IH by lia. reflexivity.
+Qed.
+
+Lemma bubble_row_live i pre post tl : i <> mp -> ~ In mp pre ->
+  length (i :: pre ++ mp :: post) = size ->
+  bubble_row mp size (i :: pre ++ mp :: post ++ tl) = i :: pre ++ post ++ mp :: tl.
+Proof.
+  intros Hi Hpre Hlen. cbn [bubble_row]. cbn [length] in Hlen. rewrite app_length in Hlen. cbn [length] in Hlen.
+  rewrite bubble_skip by assumption. cbn [app]. f_equal. f_equal.
+  rewrite bubble_carry by lia. f_equal. apply bubble_stop. lia.
+Qed.
+
+Lemma bubble_row_In x row : In x (bubble_row mp size row) <-> In x row.
+Proof. destruct row as [|a r]; cbn [bubble_row]; [tauto|]. apply bubble_In. Qed.
+
+End Bubble.
+
+Section Trunc.
+Context {T : Type} (Op : numops T).
+Variable vals : list (list T).
+Variable chosen : list nat.
+Let N := length chosen.
+Local Notation neg1 := (n_ofZ Op (-1)%Z).
+Local Notation inf := (n_inf Op).
+Local Notation ltb := (n_ltb Op).
+Local Notation zero := (n_ofZ Op 0%Z).
+
+Definition sq (i j : nat) : T := sqdist Op (nth (nth i chosen 0%nat) vals []) (nth (nth j chosen 0%nat) vals []).
+
+(* what the order must satisfy on the values that occur: -1 < squared distances < inf *)
+Hypothesis H_neg1_sq : forall i j, ltb neg1 (sq i j) = true.
+Hypothesis H_sq_neg1 : forall i j, ltb (sq i j) neg1 = false.
+Hypothesis H_sq_inf : forall i j, ltb (sq i j) inf = true.
+Hypothesis H_inf_sq : forall i j, ltb inf (sq i j) = false.
+
+Definition d0 (i x : nat) : T := if Nat.eqb i x then neg1 else if Nat.ltb i x then sq i x else sq x i.
+
+Lemma get2_tab (f : nat -> nat -> T) i x : (i < N)%nat -> (x < N)%nat ->
+  get2 Op (tab N (fun i => tab N (f i))) i x = f i x.
+Proof.
+  intros Hi Hx. unfold get2. rewrite (nth_tab N _ i [] Hi). apply nth_tab. exact Hx.
+Qed.
+
+Lemma get2_D0 i x : (i < N)%nat -> (x < N)%nat -> get2 Op (dist_matrix Op vals chosen N) i x = d0 i x.
+Proof. intros Hi Hx. unfold dist_matrix. rewrite get2_tab by assumption. reflexivity. Qed.
+
+Definition isfin (t : T) : Prop := ltb t inf = true /\ ltb inf t = false.
+
+Lemma d0_fin i x : i <> x -> isfin (d0 i x).
+Proof.
+  intro H. unfold d0. destruct (Nat.eqb_spec i x); [contradiction|].
+  destruct (Nat.ltb i x); split; auto.
+Qed.
+
+(* ---- the sorted rows: row i starts with i ---- *)
+Lemma ins_rev_perm row j : forall rl, Permutation (ins_rev Op row j rl) (j :: rl).
+Proof.
+  induction rl as [|e rl IH]; cbn [ins_rev]; auto.
+  destruct (ltb (nth j row zero) (nth e row zero)); auto. rewrite IH. apply perm_swap.
+Qed.
+
+Lemma ins_rev_to_end row j : forall rl, (forall e, In e rl -> ltb (nth j row zero) (nth e row zero) = true) ->
+  ins_rev Op row j rl = rl ++ [j].
+Proof.
+  induction rl as [|e rl IH]; intros H; cbn [ins_rev app]; [reflexivity|].
+  rewrite (H e (or_introl eq_refl)). rewrite IH; [reflexivity|]. intros e' He'. apply H. now right.
+Qed.
+
+Lemma ins_rev_keeps_last row j i : ltb (nth j row zero) (nth i row zero) = false ->
+  forall rl, exists rl', ins_rev Op row j (rl ++ [i]) = rl' ++ [i].
+Proof.
+  intros H. induction rl as [|e rl IH]; cbn [app ins_rev].
+  - rewrite H. exists [j]. reflexivity.
+  - destruct (ltb (nth j row zero) (nth e row zero)).
+    + destruct IH as [rl' E]. rewrite E. exists (e :: rl'). reflexivity.
+    + exists (j :: e :: rl). reflexivity.
+Qed.
+
+Lemma sorted_row_fold i (Hi : (i < N)%nat) : forall n (Hn : (n < N)%nat),
+  let rl := fold_left (fun rl j => ins_rev Op (tab N (d0 i)) j rl) (seq 1 n) [0%nat] in
+  Permutation rl (seq 0 (S n)) /\
+  (if Nat.leb i n then exists rl', rl = rl' ++ [i] else True).
+Proof.
+  induction n as [|n IH]; intros Hn; cbn zeta.
+  - cbn. split; [reflexivity|]. destruct i; cbn; [exists []; reflexivity|exact I].
+  - rewrite seq_S, fold_left_app. cbn [fold_left plus].
+    destruct (IH ltac:(lia)) as [P L]. cbn zeta in P, L.
+    set (rl := fold_left (fun rl j => ins_rev Op (tab N (d0 i)) j rl) (seq 1 n) [0%nat]) in *.
+    split.
+    + rewrite ins_rev_perm. replace (seq 0 (S (S n))) with (seq 0 (S n) ++ [S n]) by (symmetry; apply (seq_S (S n) 0)).
+      rewrite P. apply Permutation_cons_append.
+    + destruct (Nat.leb_spec i (S n)) as [Le|Gt]; [|exact I].
+      destruct (Nat.leb_spec i n) as [Le'|Gt'].
+      * destruct L as [rl' E]. rewrite E. apply ins_rev_keeps_last.
+        rewrite !nth_tab by lia. unfold d0. rewrite Nat.eqb_refl.
+        destruct (Nat.eqb_spec i (S n)); [lia|]. destruct (Nat.ltb i (S n)); apply H_sq_neg1.
+      * assert (i = S n) by lia. subst i. exists rl. apply ins_rev_to_end.
+        intros e He. apply (Permutation_in _ P) in He. apply in_seq in He.
+        rewrite !nth_tab by lia. unfold d0. rewrite Nat.eqb_refl.
+        destruct (Nat.eqb_spec (S n) e); [lia|]. destruct (Nat.ltb (S n) e); apply H_neg1_sq.
+Qed.
+
+Lemma sorted_row_spec i : (i < N)%nat ->
+  exists body, sorted_row Op (tab N (d0 i)) N = i :: body /\ Permutation (i :: body) (seq 0 N).
+Proof.
+  intro Hi. unfold sorted_row. destruct (sorted_row_fold i Hi (N - 1) ltac:(lia)) as [P L]. cbn zeta in P, L.
+  set (rl := fold_left _ (seq 1 (N - 1)) [0%nat]) in *.
+  replace (S (N - 1)) with N in P by lia.
+  destruct (Nat.leb_spec i (N - 1)) as [_|G]; [|lia].
+  destruct L as [rl' E]. rewrite E, rev_app_distr. cbn [rev app]. exists (rev rl'). split; [reflexivity|].
+  rewrite <- P, E. rewrite Permutation_app_comm. cbn [app]. constructor. symmetry. apply Permutation_rev.
+Qed.
+
+(* ---- the loop invariant ---- *)
+Definition live (rem : list nat) (i : nat) : Prop := (i < N)%nat /\ ~ In i rem.
+
+Record tinv (s : tstate) : Prop := {
+  t_inf : forall i x, (i < N)%nat -> (x < N)%nat -> In i (ts_rem s) \/ In x (ts_rem s) -> get2 Op (ts_D s) i x = inf;
+  t_fin : forall i x, live (ts_rem s) i -> live (ts_rem s) x -> i <> x -> isfin (get2 Op (ts_D s) i x);
+  t_len : length (ts_SI s) = N;
+  t_lt : forall i x, (i < N)%nat -> In x (nth i (ts_SI s) []) -> (x < N)%nat;
+  t_row : forall i, live (ts_rem s) i -> exists body tl,
+            nth i (ts_SI s) [] = i :: body ++ tl /\ S (length body) = ts_size s /\ NoDup body /\
+            (forall x, In x body <-> (live (ts_rem s) x /\ x <> i)) /\ (forall x, In x tl -> In x (ts_rem s));
+  t_nd : NoDup (ts_rem s);
+  t_rlt : forall r, In r (ts_rem s) -> (r < N)%nat;
+  t_sz : (length (ts_rem s) + ts_size s = N)%nat
+}.
+
+Lemma live_dec rem i : {live rem i} + {~ live rem i}.
+Proof.
+  unfold live. destruct (lt_dec i N); [|right; tauto]. destruct (in_dec Nat.eq_dec i rem); [right; tauto|left; tauto].
+Qed.
+
+(* value compared first by the search: distances[i][sorted_indices[i][1]] *)
+Definition val1 (s : tstate) (i : nat) : T := get2 Op (ts_D s) i (nth 1 (nth i (ts_SI s) []) 0%nat).
+
+Lemma val1_live s i : tinv s -> (2 <= ts_size s)%nat -> live (ts_rem s) i -> isfin (val1 s i).
+Proof.
+  intros J Hs Hl. destruct (t_row s J i Hl) as [body [tl [E [Lb [_ [Hb _]]]]]].
+  unfold val1. rewrite E. destruct body as [|x body]; [cbn in Lb; lia|]. cbn [nth app].
+  assert (Hx : live (ts_rem s) x /\ x <> i) by (apply Hb; now left). destruct Hx as [Hx Hne].
+  apply (t_fin s J); auto.
+Qed.
+
+Lemma val1_dead s i : tinv s -> (i < N)%nat -> ~ live (ts_rem s) i -> val1 s i = inf.
+Proof.
+  intros J Hi Hd. unfold val1. apply (t_inf s J); [exact Hi| |].
+  - destruct (Nat.lt_ge_cases 1 (length (nth i (ts_SI s) []))) as [L|L].
+    + apply (t_lt s J i); [exact Hi|]. apply nth_In. exact L.
+    + rewrite nth_overflow by exact L. lia.
+  - left. unfold live in Hd. destruct (in_dec Nat.eq_dec i (ts_rem s)); [assumption|tauto].
+Qed.
+
+Lemma find_min_live s : tinv s -> (2 <= ts_size s)%nat -> live (ts_rem s) (find_min Op (ts_D s) (ts_SI s) N (ts_size s)).
+Proof.
+  intros J Hs. unfold find_min.
+  set (step := fun min_pos i => if row_less Op (seq 1 (ts_size s - 1)) _ _ then i else min_pos).
+  assert (Hstep : forall acc i, (acc < N)%nat -> (i < N)%nat ->
+            (step acc i < N)%nat /\ (live (ts_rem s) acc \/ live (ts_rem s) i -> live (ts_rem s) (step acc i))).
+  { intros acc i Ha Hi. unfold step.
+    replace (seq 1 (ts_size s - 1)) with (1%nat :: seq 2 (ts_size s - 2)) by (destruct (ts_size s) as [|[|n]]; [lia|lia|cbn; now rewrite Nat.sub_0_r]).
+    cbn [row_less]. fold (val1 s i). fold (val1 s acc).
+    destruct (live_dec (ts_rem s) i) as [Li|Di]; destruct (live_dec (ts_rem s) acc) as [La|Da].
+    - split; [destruct (ltb (val1 s i) (val1 s acc)); [lia|]; destruct (ltb (val1 s acc) (val1 s i)); [lia|]; destruct (row_less _ _ _ _); lia|].
+      intros _. destruct (ltb (val1 s i) (val1 s acc)); [exact Li|]. destruct (ltb (val1 s acc) (val1 s i)); [exact La|].
+      destruct (row_less _ _ _ _); assumption.
+    - destruct (val1_live s i J Hs Li) as [F1 F2]. rewrite (val1_dead s acc J Ha Da), F1. split; [exact Hi|intros _; exact Li].
+    - destruct (val1_live s acc J Hs La) as [F1 F2]. rewrite (val1_dead s i J Hi Di), F2, F1. split; [exact Ha|intros _; exact La].
+    - split; [|intros [H|H]; contradiction].
+      destruct (ltb (val1 s i) (val1 s acc)); [lia|]; destruct (ltb (val1 s acc) (val1 s i)); [lia|]; destruct (row_less _ _ _ _); lia. }
+  assert (Hfold : forall l acc, (acc < N)%nat -> (forall i, In i l -> (i < N)%nat) ->
+            (live (ts_rem s) acc \/ exists i, In i l /\ live (ts_rem s) i) -> live (ts_rem s) (fold_left step l acc)).
+  { induction l as [|i l IH]; intros acc Ha Hl Hex; cbn [fold_left].
+    - destruct Hex as [H|[i [[] _]]]. exact H.
+    - destruct (Hstep acc i Ha (Hl i (or_introl eq_refl))) as [S1 S2]. apply IH; [exact S1|intros; apply Hl; now right|].
+      destruct Hex as [H|[i' [[<-|Hi'] Hlive]]]; [left; auto|left; auto|right; eauto]. }
+  assert (HN : (1 <= N)%nat) by (pose proof (t_sz s J); lia).
+  apply Hfold; [lia|intros i Hi; apply in_seq in Hi; lia|].
+  destruct (exists_unselected N (ts_rem s) (t_nd s J) (t_rlt s J) ltac:(pose proof (t_sz s J); lia)) as [x [Hx Hnx]].
+  destruct x as [|x]; [left; split; assumption|right]. exists (S x). split; [apply in_seq; lia|split; assumption].
+Qed.
+
+Lemma trunc_step_inv s : tinv s -> (2 <= ts_size s)%nat ->
+  let s' := trunc_step Op N s in
+  tinv s' /\ ts_size s' = (ts_size s - 1)%nat /\
+  exists mp, live (ts_rem s) mp /\ ts_rem s' = ts_rem s ++ [mp].
+Proof.
+  intros J Hs. unfold trunc_step.
+  set (mp := find_min Op (ts_D s) (ts_SI s) N (ts_size s)).
+  assert (Lmp : live (ts_rem s) mp) by (apply find_min_live; assumption).
+  destruct Lmp as [HmpN Hmprem].
+  cbn zeta. split; [|split; [reflexivity|exists mp; split; [split; assumption|reflexivity]]].
+  assert (Hin' : forall x, In x (ts_rem s ++ [mp]) <-> In x (ts_rem s) \/ x = mp).
+  { intro x. rewrite in_app_iff. cbn. intuition. }
+  assert (Hlive' : forall x, live (ts_rem s ++ [mp]) x <-> live (ts_rem s) x /\ x <> mp).
+  { intro x. unfold live. rewrite Hin'. intuition. }
+  constructor; cbn [ts_D ts_SI ts_size ts_rem].
+  - intros i x Hi Hx H. rewrite get2_tab by assumption.
+    destruct (Nat.eqb_spec i mp); [reflexivity|]. destruct (Nat.eqb_spec x mp); [reflexivity|]. cbn.
+    apply (t_inf s J); auto. rewrite !Hin' in H. intuition.
+  - intros i x Hi Hx Hne. apply Hlive' in Hi. apply Hlive' in Hx. destruct Hi as [Hi Hi2], Hx as [Hx Hx2].
+    rewrite get2_tab by (apply Hi || apply Hx).
+    destruct (Nat.eqb_spec i mp); [contradiction|]. destruct (Nat.eqb_spec x mp); [contradiction|]. cbn.
+    apply (t_fin s J); assumption.
+  - apply tab_length.
+  - intros i x Hi Hx. rewrite (nth_tab N _ i [] Hi) in Hx. apply bubble_row_In in Hx. eapply (t_lt s J); eauto.
+  - intros i Hi. apply Hlive' in Hi. destruct Hi as [Hi Hne].
+    destruct (t_row s J i Hi) as [body [tl [E [Lb [NDb [Hb Htl]]]]]].
+    assert (Hmpb : In mp body) by (apply Hb; split; [split; assumption|auto]).
+    apply in_split in Hmpb. destruct Hmpb as [pre [post Eb]]. subst body.
+    assert (NDb' := NDb). apply NoDup_remove in NDb'. destruct NDb' as [NDpp Hnot].
+    rewrite (nth_tab N _ i [] (proj1 Hi)). rewrite E. rewrite <- app_assoc. cbn [app].
+    rewrite bubble_row_live; [| exact Hne | intro H; apply Hnot; apply in_or_app; now left |
+                                cbn [length]; rewrite <- Lb, !app_length; cbn [length]; lia ].
+    exists (pre ++ post), (mp :: tl). split; [now rewrite <- app_assoc|]. split; [|split; [exact NDpp|split]].
+    + rewrite app_length in *. cbn [length] in Lb. lia.
+    + intros x. rewrite Hlive'. specialize (Hb x). rewrite in_app_iff in Hb. cbn [In] in Hb. rewrite in_app_iff. split.
+      * intros Hx. assert (Hx' : x <> mp). { intros ->. apply Hnot. apply in_or_app. exact Hx. }
+        assert (In x pre \/ mp = x \/ In x post) by tauto. apply Hb in H. tauto.
+      * intros [[Hl Hxm] Hxi]. assert (H : In x pre \/ mp = x \/ In x post) by (apply Hb; tauto).
+        destruct H as [H|[H|H]]; [now left|congruence|now right].
+    + intros x [<-|Hx]; rewrite Hin'; [now right|left; auto].
+  - apply NoDup_app_disj; [apply (t_nd s J)|constructor; [intros []|constructor]|]. intros x Hx [<-|[]]. contradiction.
+  - intros r Hr. apply Hin' in Hr. destruct Hr as [Hr| ->]; [apply (t_rlt s J); exact Hr|exact HmpN].
+  - rewrite app_length. cbn [length]. pose proof (t_sz s J). lia.
+Qed.
+
+Lemma trunc_loop_inv : forall n s, tinv s -> (n + 1 <= ts_size s)%nat ->
+  let s' := trunc_loop Op n N s in
+  tinv s' /\ ts_size s' = (ts_size s - n)%nat.
+Proof.
+  induction n as [|n IH]; intros s J Hs; cbn [trunc_loop].
+  - split; [exact J|lia].
+  - destruct (trunc_step_inv s J ltac:(lia)) as [J' [Sz _]]. cbn zeta in *.
+    destruct (IH _ J' ltac:(rewrite Sz; lia)) as [J'' Sz'']. cbn zeta in *. split; [exact J''|]. rewrite Sz'', Sz. lia.
+Qed.
+
+Lemma trunc_init_inv : NoDup chosen -> tinv (trunc_init Op vals chosen).
+Proof.
+  intro NDc. unfold trunc_init. fold N.
+  constructor; cbn [ts_D ts_SI ts_size ts_rem].
+  - intros i x _ _ H. destruct H as [H|H]; destruct H.
+  - intros i x [Hi _] [Hx _] Hne. rewrite get2_D0 by assumption. apply d0_fin. exact Hne.
+  - apply tab_length.
+  - intros i x Hi Hx. rewrite (nth_tab N _ i [] Hi) in Hx.
+    assert (E : nth i (dist_matrix Op vals chosen N) [] = tab N (d0 i)).
+    { unfold dist_matrix. rewrite (nth_tab N _ i [] Hi). reflexivity. }
+    rewrite E in Hx. destruct (sorted_row_spec i Hi) as [body [Eb P]]. rewrite Eb in Hx.
+    apply (Permutation_in _ P) in Hx. apply in_seq in Hx. lia.
+  - intros i [Hi _]. rewrite (nth_tab N _ i [] Hi).
+    assert (E : nth i (dist_matrix Op vals chosen N) [] = tab N (d0 i)).
+    { unfold dist_matrix. rewrite (nth_tab N _ i [] Hi). reflexivity. }
+    rewrite E. destruct (sorted_row_spec i Hi) as [body [Eb P]]. rewrite Eb.
+    exists body, []. rewrite app_nil_r. split; [reflexivity|].
+    assert (NDib : NoDup (i :: body)) by (eapply Permutation_NoDup; [symmetry; exact P|apply seq_NoDup]).
+    split; [|split; [|split]].
+    + apply Permutation_length in P. rewrite seq_length in P. cbn in P. exact P.
+    + inversion NDib; assumption.
+    + intros x. unfold live. cbn [In]. split.
+      * intros Hx. assert (Hx' : In x (seq 0 N)) by (eapply Permutation_in; [exact P|now right]).
+        apply in_seq in Hx'. split; [split; [lia|tauto]|]. intros ->. inversion NDib; contradiction.
+      * intros [[Hx _] Hne]. assert (Hx' : In x (i :: body)) by (eapply Permutation_in; [symmetry; exact P|apply in_seq; lia]).
+        destruct Hx' as [->|Hx']; [contradiction|exact Hx'].
+    + intros x [].
+  - constructor.
+  - intros r [].
+  - cbn. reflexivity.
+Qed.
+
+End Trunc.
+
+(* ---- sorted(to_remove) and the deletions ---- *)
+From Coq Require Import Sorted.
+
+Lemma ins_nat_perm x : forall l, Permutation (ins_nat x l) (x :: l).
+Proof.
+  induction l as [|y l IH]; cbn; auto. destruct (Nat.leb x y); auto. rewrite IH. apply perm_swap.
+Qed.
+
+Lemma sort_nat_perm l : Permutation (sort_nat l) l.
+Proof. induction l as [|x l IH]; cbn; auto. rewrite ins_nat_perm. now constructor. Qed.
+
+Lemma ins_nat_sorted x : forall l, StronglySorted le l -> StronglySorted le (ins_nat x l).
+Proof.
+  induction l as [|y l IH]; intros H; cbn.
+  - constructor; constructor.
+  - inversion H as [|? ? Hs Hf]; subst. destruct (Nat.leb_spec x y) as [L|L].
+    + constructor; [exact H|]. constructor; [exact L|]. eapply Forall_impl; [|exact Hf]. intros; cbn in *; lia.
+    + constructor; [apply IH; exact Hs|].
+      apply Forall_forall. intros z Hz. apply (Permutation_in _ (ins_nat_perm x l)) in Hz.
+      destruct Hz as [<-|Hz]; [lia|]. rewrite Forall_forall in Hf. auto.
+Qed.
+
+Lemma sort_nat_sorted l : StronglySorted le (sort_nat l).
+Proof. induction l as [|x l IH]; cbn; [constructor|]. apply ins_nat_sorted. exact IH. Qed.
+
+Lemma sorted_le_nodup_lt l : StronglySorted le l -> NoDup l -> StronglySorted lt l.
+Proof.
+  induction l as [|x l IH]; intros H ND; [constructor|].
+  inversion H as [|? ? Hs Hf]; subst. inversion ND as [|? ? Hx NDl]; subst. constructor; [auto|].
+  apply Forall_forall. intros z Hz. rewrite Forall_forall in Hf. specialize (Hf z Hz).
+  destruct (Nat.eq_dec x z) as [->|]; [contradiction|lia].
+Qed.
+
+Lemma sorted_lt_bound : forall l lo hi, StronglySorted lt l -> (forall x, In x l -> lo <= x < hi)%nat ->
+  (length l <= hi - lo)%nat.
+Proof.
+  induction l as [|a l IH]; intros lo hi H Hb; cbn; [lia|].
+  inversion H as [|? ? Hs Hf]; subst. rewrite Forall_forall in Hf.
+  assert (Ha := Hb a (or_introl eq_refl)).
+  specialize (IH (S a) hi Hs). assert (length l <= hi - S a)%nat.
+  { apply IH. intros x Hx. specialize (Hf x Hx). specialize (Hb x (or_intror Hx)). lia. }
+  lia.
+Qed.
+
+Lemma remove_nth_length {A} : forall i (l : list A), (i < length l)%nat -> length (remove_nth i l) = (length l - 1)%nat.
+Proof.
+  induction i as [|i IH]; intros [|x l] H; cbn in *; try lia.
+  rewrite IH by lia. lia.
+Qed.
+
+Lemma remove_nth_incl {A} : forall i (l : list A), incl (remove_nth i l) l.
+Proof.
+  induction i as [|i IH]; intros [|x l]; cbn; try (intros y Hy; now (try right)); try apply incl_refl.
+  intros y [<-|Hy]; [now left|right; apply IH; exact Hy].
+Qed.
+
+Lemma remove_nth_NoDup {A} : forall i (l : list A), NoDup l -> NoDup (remove_nth i l).
+Proof.
+  induction i as [|i IH]; intros [|x l] H; cbn; auto; inversion H; subst; auto.
+  constructor; [|apply IH; assumption]. intro Hin. apply remove_nth_incl in Hin. contradiction.
+Qed.
+
+Lemma delete_sorted {A} (c : list A) : forall l, StronglySorted lt l -> (forall x, In x l -> x < length c)%nat ->
+  let r := fold_right (@remove_nth A) c l in
+  length r = (length c - length l)%nat /\ incl r c /\ (NoDup c -> NoDup r).
+Proof.
+  induction l as [|a l IH]; intros H Hb; cbn [fold_right length].
+  - split; [lia|]. split; [apply incl_refl|auto].
+  - inversion H as [|? ? Hs Hf]; subst.
+    destruct (IH Hs (fun x Hx => Hb x (or_intror Hx))) as [L [I ND]]. cbn zeta in *.
+    assert (Hlen : (length l <= length c - S a)%nat).
+    { apply (sorted_lt_bound l (S a) (length c) Hs). intros x Hx. rewrite Forall_forall in Hf.
+      specialize (Hf x Hx). specialize (Hb x (or_intror Hx)). lia. }
+    assert (Ha := Hb a (or_introl eq_refl)).
+    split; [rewrite remove_nth_length; lia|]. split.
+    + intros y Hy. apply I. eapply remove_nth_incl; eauto.
+    + intros Hc. apply remove_nth_NoDup. auto.
+Qed.
+
+Section TruncFinal.
+Context {T : Type} (Op : numops T).
+Variable vals : list (list T).
+Variable chosen : list nat.
+Let N := length chosen.
+
+Hypothesis H_neg1_sq : forall i j, n_ltb Op (n_ofZ Op (-1)) (sq Op vals chosen i j) = true.
+Hypothesis H_sq_neg1 : forall i j, n_ltb Op (sq Op vals chosen i j) (n_ofZ Op (-1)) = false.
+Hypothesis H_sq_inf : forall i j, n_ltb Op (sq Op vals chosen i j) (n_inf Op) = true.
+Hypothesis H_inf_sq : forall i j, n_ltb Op (n_inf Op) (sq Op vals chosen i j) = false.
+
+(* the truncation keeps exactly k of the chosen individuals, all different *)
+Theorem trunc_branch_spec k : NoDup chosen -> (1 <= k <= N)%nat ->
+  let r := trunc_branch Op vals k chosen in
+  length r = k /\ NoDup r /\ incl r chosen.
+Proof.
+  intros NDc Hk. unfold trunc_branch. fold N.
+  assert (J0 := trunc_init_inv Op vals chosen H_neg1_sq H_sq_neg1 H_sq_inf H_inf_sq NDc).
+  destruct (trunc_loop_inv Op chosen (N - k) _ J0) as [J Sz].
+  { cbn. fold N. lia. }
+  cbn zeta in *. fold N in J, Sz. set (s := trunc_loop Op (N - k) N (trunc_init Op vals chosen)) in *.
+  assert (Lrem : length (ts_rem s) = (N - k)%nat).
+  { pose proof (t_sz Op chosen s J). fold N in H. cbn in Sz. fold N in Sz. lia. }
+  rewrite <- fold_left_rev_right, rev_involutive.
+  assert (P := sort_nat_perm (ts_rem s)).
+  assert (SS : StronglySorted lt (sort_nat (ts_rem s))).
+  { apply sorted_le_nodup_lt; [apply sort_nat_sorted|]. eapply Permutation_NoDup; [symmetry; exact P|apply (t_nd Op chosen s J)]. }
+  destruct (delete_sorted chosen (sort_nat (ts_rem s)) SS) as [L [I ND]].
+  { intros x Hx. apply (Permutation_in _ P) in Hx. apply (t_rlt Op chosen s J). exact Hx. }
+  cbn zeta in *. split; [|split; [auto|exact I]].
+  rewrite L, (Permutation_length P), Lrem. fold N. lia.
+Qed.
+
+End TruncFinal.
+
+(* ------------------------------------------------------------------ *)
+(* selSPEA2 *)
+Section Spea2Final.
+Context {T : Type} (Op : numops T).
+Hypothesis ltb_asym : forall x y, n_ltb Op x y = true -> n_ltb Op y x = false.
+
+(* the order facts the truncation needs, on the squared distances that can occur *)
+Definition dist_ok (vals : list (list T)) : Prop :=
+  forall a b, In a ([] :: vals) -> In b ([] :: vals) ->
+    n_ltb Op (n_ofZ Op (-1)) (sqdist Op a b) = true /\
+    n_ltb Op (sqdist Op a b) (n_ofZ Op (-1)) = false /\
+    n_ltb Op (sqdist Op a b) (n_inf Op) = true /\
+    n_ltb Op (n_inf Op) (sqdist Op a b) = false.
+
+Lemma nth_in_or_nil {A} (l : list (list A)) i : In (nth i l []) ([] :: l).
+Proof.
+  destruct (Nat.lt_ge_cases i (length l)) as [H|H]; [right; apply nth_In; exact H|left; symmetry; apply nth_overflow; exact H].
+Qed.
+
+(* the non-dominated individuals, as a list of indices in increasing order *)
+Definition nd_b (w : list (list T)) (i : nat) : bool :=
+  forallb (fun j => negb (dominates Op (nth j w []) (nth i w []))) (seq 0 (length w)).
+Definition nd_list (w : list (list T)) : list nat := filter (nd_b w) (seq 0 (length w)).
+
+Lemma nd_b_spec w i : nd_b w i = true <-> nondominated Op w i.
+Proof.
+  unfold nd_b, nondominated. rewrite forallb_forall. split.
+  - intros H j Hj. specialize (H j ltac:(apply in_seq; lia)). now apply negb_true_iff in H.
+  - intros H j Hj. apply in_seq in Hj. apply negb_true_iff. apply H. lia.
+Qed.
+
+Lemma nd_indices_eq w :
+  let '(S_, D) := phase1 Op w (length w) in nd_indices (raw_fits S_ D) = nd_list w.
+Proof.
+  assert (L := raw_fits_length Op w). assert (Z := fun i => raw_fits_zero_iff Op ltb_asym w i).
+  destruct (phase1 Op w (length w)) as [S_ D]. unfold nd_indices, nd_list. rewrite L.
+  apply filter_ext_in. intros i Hi. apply in_seq in Hi. specialize (Z i ltac:(lia)).
+  destruct (nd_b w i) eqn:E.
+  - apply nd_b_spec in E. apply Z in E. apply Nat.ltb_lt. rewrite (nth_indep _ 0%nat 1%nat) by lia. lia.
+  - apply Nat.ltb_ge. destruct (Nat.eq_dec (nth i (raw_fits S_ D) 0%nat) 0) as [E0|]; [|lia].
+    rewrite (nth_indep _ 0%nat 1%nat) in E0 by lia. apply Z in E0. apply nd_b_spec in E0. congruence.
+Qed.
+
+Theorem spea2_spec vals wvals k draws : dist_ok vals -> (1 <= k <= length wvals)%nat ->
+  let r := fst (spea2 Op vals wvals k draws) in
+  length r = k /\ NoDup r /\ (forall i, In i r -> (i < length wvals)%nat) /\
+  ((length (nd_list wvals) <= k)%nat -> incl (nd_list wvals) r) /\
+  ((k <= length (nd_list wvals))%nat -> incl r (nd_list wvals)).
+Proof.
+  intros Hd Hk. unfold spea2. assert (E := nd_indices_eq wvals).
+  destruct (phase1 Op wvals (length wvals)) as [S_ D]. rewrite E.
+  set (chosen := nd_list wvals).
+  assert (NDc : NoDup chosen) by (apply NoDup_filter, seq_NoDup).
+  assert (Hlt : forall i, In i chosen -> (i < length wvals)%nat).
+  { intros i Hi. apply filter_In in Hi. destruct Hi as [Hi _]. apply in_seq in Hi. lia. }
+  destruct (Nat.ltb_spec (length chosen) k) as [Hfew|Hge].
+  - destruct (fill_branch_spec Op vals (length wvals) k (raw_fits S_ D) chosen draws NDc Hlt ltac:(lia)) as [L [ND [Lt I]]].
+    split; [exact L|]. split; [exact ND|]. split; [exact Lt|]. split; [intros _; exact I|]. intros; lia.
+  - destruct (Nat.ltb_spec k (length chosen)) as [Hmany|Heq]; cbn [fst].
+    + assert (TS : length (trunc_branch Op vals k chosen) = k /\ NoDup (trunc_branch Op vals k chosen) /\
+                   incl (trunc_branch Op vals k chosen) chosen).
+      { apply trunc_branch_spec; try (intros i j; apply Hd; apply nth_in_or_nil); [exact NDc|lia]. }
+      destruct TS as [L [ND I]]. split; [exact L|]. split; [exact ND|]. split; [intros i Hi; apply Hlt, I, Hi|].
+      split; [intros; lia|intros _; exact I].
+    + split; [lia|]. split; [exact NDc|]. split; [exact Hlt|]. split; intros _; apply incl_refl.
+Qed.
+
+End Spea2Final.
+
+(* ------------------------------------------------------------------ *)
+(* the exact instance satisfies the hypotheses on finite inputs *)
+From Coq Require Import QArith.
+
+Lemma qx_ltb_asym x y : qx_ltb x y = true -> qx_ltb y x = false.
+Proof.
+  destruct x as [x|], y as [y|]; cbn; try congruence.
+  rewrite <- (Qcompare_antisym x y). destruct (x ?= y)%Q; cbn; congruence.
+Qed.
+
+Lemma sqdist_qx_fold : forall (l : list (qx * qx)) q0, (0 <= q0)%Q ->
+  (forall p, In p l -> exists x y, p = (QF x, QF y)) ->
+  exists q, fold_left (fun acc p => let v := n_sub qx_ops (fst p) (snd p) in n_add qx_ops acc (n_mul qx_ops v v)) l (QF q0) = QF q /\ (0 <= q)%Q.
+Proof.
+  induction l as [|p l IH]; intros q0 H0 Hl; cbn [fold_left].
+  - exists q0. split; [reflexivity|exact H0].
+  - destruct (Hl p (or_introl eq_refl)) as [x [y ->]]. cbn [fst snd n_sub n_add n_mul qx_ops qx_lift2].
+    apply IH; [|intros p Hp; apply Hl; now right].
+    rewrite !Qred_correct. rewrite <- (Qplus_0_l 0). apply Qplus_le_compat; [exact H0|].
+    destruct (Qlt_le_dec (x - y) 0) as [Hneg|Hpos].
+    + setoid_replace ((x - y) * (x - y))%Q with ((- (x - y)) * (- (x - y)))%Q by ring.
+      apply Qmult_le_0_compat; apply Qlt_le_weak; rewrite <- (Qopp_involutive 0); apply Qopp_lt_compat; exact Hneg.
+    + apply Qmult_le_0_compat; exact Hpos.
+Qed.
+
+Lemma zip_map_QF : forall a b p, In p (zip (map QF a) (map QF b)) -> exists x y, p = (QF x, QF y).
+Proof.
+  induction a as [|x a IH]; intros [|y b] p; cbn; try tauto.
+  intros [<-|H]; [eauto|eapply IH; eauto].
+Qed.
+
+Lemma sqdist_qx a b : exists q, sqdist qx_ops (map QF a) (map QF b) = QF q /\ (0 <= q)%Q.
+Proof.
+  unfold sqdist. apply (sqdist_qx_fold _ (inject_Z 0)); [apply Qle_refl|apply zip_map_QF].
+Qed.
+
+Lemma dist_ok_qx (vq : list (list Q)) : dist_ok qx_ops (map (map QF) vq).
+Proof.
+  intros a b Ha Hb.
+  assert (Ha' : exists a', a = map QF a').
+  { destruct Ha as [<-|Ha]; [exists []; reflexivity|]. apply in_map_iff in Ha. destruct Ha as [a' [<- _]]. eauto. }
+  assert (Hb' : exists b', b = map QF b').
+  { destruct Hb as [<-|Hb]; [exists []; reflexivity|]. apply in_map_iff in Hb. destruct Hb as [b' [<- _]]. eauto. }
+  destruct Ha' as [a' ->], Hb' as [b' ->]. destruct (sqdist_qx a' b') as [q [-> Hq]]. cbn [n_ltb n_ofZ n_inf qx_ops qx_ltb].
+  assert (L : (inject_Z (-1) < q)%Q) by (eapply Qlt_le_trans; [|exact Hq]; reflexivity).
+  split; [|split; [|split]]; try reflexivity.
+  - assert (E : (inject_Z (-1) ?= q)%Q = Lt) by (apply Qlt_alt; exact L). now rewrite E.
+  - destruct (q ?= inject_Z (-1))%Q eqn:E; try reflexivity. apply Qlt_alt in E. exfalso.
+    apply (Qlt_irrefl q). eapply Qlt_trans; eauto.
+Qed.
